@@ -49,14 +49,14 @@ def cfg_text(w, n, spec="GSpec", invariants=("Emit",), properties=(), extra="", 
     return "\n".join(lines) + "\n"
 
 
-def generate(w, n, *, simulate=None, seed=None, timeout=900, limit=None, keep="KeepAll"):
+def generate(w, n, *, simulate=None, seed=None, timeout=900, limit=None, keep="KeepAll", module="MC_World"):
     """Behaviours of world w: exhaustive up to length n, or `simulate` random ones of length n."""
     cfg = f"Gen_{w}_{n}_{os.getpid()}.cfg"
     path = os.path.join(vlib.SPEC, cfg)
     with open(path, "w") as f:
         f.write(cfg_text(w, n, keep=keep))
     try:
-        r = vlib.tlc_expect_ok("MC_World", cfg, workers=1, simulate=simulate, depth=(n + 1 if simulate else None),
+        r = vlib.tlc_expect_ok(module, cfg, workers=1, simulate=simulate, depth=(n + 1 if simulate else None),
                                seed=seed, timeout=timeout, name=f"gen-{w}-n{n}", xmx="6g")
     finally:
         os.remove(path)
@@ -172,3 +172,59 @@ def binding_demo(ctx, w, n):
                 ctx.cov["binding_demos"].append({"corrupted": "expected value of one load set to 99", "verdict": "mismatch reported"})
                 return
     raise vlib.ToolError("binding demo: no suitable behaviour")
+
+
+# --------------------------------------------------------------------------
+# random larger dependency DAGs (C05: "random larger ones")
+# --------------------------------------------------------------------------
+def random_world(seed, nnodes=10):
+    """Write spec/MC_Rand_<pid>.tla defining a random DAG world 'WR'; returns (module, cleanup)."""
+    import random
+    rnd = random.Random(seed)
+    leaf_ids = ["a", "b", "c", "d"]
+    node_ids = ["a", "b", "c", "d", "d.a", "d.b", "d.e", "d.e.a"]
+    leaves = [("L0", i) for i in leaf_ids] + [("L1", "a"), ("L2", "b")]
+    cands = [(t, i) for t in ("N0", "N1", "N2", "N3") for i in node_ids]
+    rnd.shuffle(cands)
+    nodes = cands[:nnodes]
+    K = lambda k: f'K("{k[0]}","{k[1]}")'
+    scripts = []
+    for idx, nk in enumerate(nodes):
+        ins = []
+        for _ in range(rnd.randint(1, 3)):
+            # prefer earlier compounds so that the DAG gets deep (chains, diamonds)
+            tgt = rnd.choice(nodes[:idx]) if idx > 0 and rnd.random() < 0.65 else rnd.choice(leaves)
+            r = rnd.random()
+            if r < 0.65:
+                ins.append(f'ILoad("{tgt[0]}","{tgt[1]}",{"TRUE" if rnd.random() < 0.5 else "FALSE"})')
+            elif r < 0.8:
+                ins.append(f'IGet("{tgt[0]}","{tgt[1]}")')
+            else:
+                ins.append(f'IRead("{rnd.choice(leaf_ids)}","x")')
+        scripts.append(f"({K(nk)} :> <<{', '.join(ins)}>>)")
+    keys = ", ".join(K(k) for k in leaves + nodes)
+    files = ", ".join(f'F("{i}","x")' for i in leaf_ids) + ', F("a","y")'
+    tops = ", ".join(K(k) for k in nodes[-4:])
+    edits = ", ".join(f'EditOp(F("{i}","x"), {c})' for i in leaf_ids for c in ("CVal(2)", "CVal(3)", "CBad", "None"))
+    notif = ", ".join(f'NotifyOp({{FileE("{i}","x")}})' for i in leaf_ids) + ', NotifyOp({FileE("a","x"), FileE("b","x"), FileE("c","x"), FileE("d","x"), FileE("zz","x")})'
+    mod = f"MC_Rand_{os.getpid()}"
+    text = f"""---- MODULE {mod} ----
+(* generated: a random dependency DAG of {nnodes} compounds over 6 leaves (seed {seed}) *)
+EXTENDS Gen_AssetCache
+K(ty, id) == Key(ty, id)
+F(id, ext) == <<id, ext>>
+Call(o, ks) == {{[op |-> o, k |-> k] : k \\in ks}}
+EditOp(f, c) == [op |-> "edit", f |-> f, c |-> c]
+NotifyOp(b) == [op |-> "notify", batch |-> b]
+WRKeys == {{{keys}}}
+WRFiles == {{{files}}}
+WRSrcs == {{[f \\in WRFiles |-> IF f = F("a","y") THEN None ELSE CVal(1)]}}
+WRScripts == {' @@ '.join(scripts)}
+WROps == Call("load", {{{tops}}}) \\cup {{[op |-> "hot_reload"]}} \\cup {{{edits}}} \\cup {{{notif}}}
+====
+""".replace("\\\\", "\\")
+    path = os.path.join(vlib.SPEC, mod + ".tla")
+    with open(path, "w") as f:
+        f.write(text)
+    WORLDS["WR"] = dict(keys="WRKeys", files="WRFiles", scripts="WRScripts", srcs="WRSrcs", ops="WROps", hasr=True)
+    return mod, (lambda: os.remove(path))
